@@ -108,7 +108,7 @@ func (g *c17ZGen) cond(which string) (string, int, bool) {
 		domFn = "qname"
 	}
 	k := g.r.Intn(9)
-	if g.r.Chance(0.002) {
+	if g.r.Chance(0.0003) {
 		k = 9
 	}
 	if which == "q" && k >= 3 && k != 9 {
